@@ -7,7 +7,8 @@ import glob, json, os, re, subprocess, sys
 VERIF = os.path.dirname(os.path.dirname(os.path.abspath(__file__)))
 ROUND = {"a": "round 1", "b": "round 2", "c": "round 3 (themes: history-dependent, configuration-dependent, two cooperating sites, numeric-type dependent)",
          "d": "round 4 (themes: history-, configuration-, numeric-type/range-, structure-dependent, untouched code region)",
-         "e": "round 5 (theme: adversarial to randomised checking - rare coincidences, everyday values, order of steps, surviving state)"}
+         "e": "round 5 (theme: adversarial to randomised checking - rare coincidences, everyday values, order of steps, surviving state)",
+         "f": "round 6 (two changes per agent; the agent was given a description of everything the harness does and asked to aim past it)"}
 dirs = sys.argv[1:] or sorted(d for d in glob.glob(os.path.join(VERIF, "seeded", "C*-*")) if not os.path.exists(os.path.join(d, "meta.json")))
 head = subprocess.run(["git", "-C", "/repo", "rev-parse", "--short", "HEAD"], capture_output=True, text=True).stdout.strip()
 for d in dirs:
@@ -26,7 +27,7 @@ for d in dirs:
         "breaks": agent.get("summary", ""),
         "needs_to_manifest": agent.get("needs", ""),
         "files": agent.get("files", []),
-        "origin": f"{ROUND.get(name[-1], 'seeded')}: written by an independent sub-agent that saw the property text, one-sentence descriptions of the "
+        "origin": f"{ROUND.get(name.split('-')[1][0], 'seeded')}: written by an independent sub-agent that saw the property text, one-sentence descriptions of the "
                   f"earlier changes for the same property (to avoid repeating them) and a scratch worktree of /repo; nothing from /verif",
         "confirmed_by_me": {
             "patch_applies_to": f"/repo at {head} (scratch copy, patch -p1)",
